@@ -628,7 +628,15 @@ pub fn saturation_script(r: &mut Rng, _index: u64, _tier: Tier) -> (CaseCfg, Vec
         s.push(poll0());
         s.push(poll0());
     }
-    if r.chance(1, 2) {
+    // half of the time the broker's own PUBLISH is handed to the application right before the
+    // connection goes: its acknowledgement is owed and unwritten, and travels to the next
+    // connection together with everything else
+    let owed_ack = r.chance(1, 2);
+    if owed_ack {
+        s.push(Step::Broker(BrokerAct::Send(crate::refcodec::SPacket::Publish { dup: false, qos: 1 + r.below(2) as u8, retain: false, topic: "sat/in".into(), pid: Some(77), props: vec![], payload: vec![1] })));
+        s.push(poll0());
+    }
+    if owed_ack || r.chance(1, 2) {
         // a new connection of the same session with the counter back on the identifiers in use
         s.push(Step::DropConn);
         s.push(Step::SetNextPid(*r.pick(&[8u16, 9, 10])));
@@ -1452,6 +1460,7 @@ pub fn pooled_script(r: &mut Rng, index: u64, tier: Tier) -> (CaseCfg, Vec<Step>
         long_lived_among_many_script,
         pingreq_cut_then_resume_script,
         refused_request_while_half_read_script,
+        redelivery_under_a_tiny_limit_script,
     ];
     let k = (index as usize) % (POOL.len() * 4 + 1);
     if k == POOL.len() * 4 {
@@ -1583,6 +1592,87 @@ pub fn refused_request_while_half_read_script(r: &mut Rng, _index: u64, _tier: T
         s.push(poll0());
     }
     s.push(Step::Broker(BrokerAct::Release { n: 9, order: Order::Fifo }));
+    for _ in 0..3 {
+        s.push(poll0());
+    }
+    (cfg, s)
+}
+
+
+/// Shared (C02, C05): an unacknowledged request outlives a long run of connection attempts that
+/// the broker refuses (CONNACK with a failure code: server busy, quota exceeded) - 254 .. 513 of
+/// them - before a connection is accepted with the session present: the request is
+/// retransmitted there, once.
+pub fn many_refused_handshakes_script(r: &mut Rng, index: u64, _tier: Tier) -> (CaseCfg, Vec<Step>) {
+    let cfg = CaseCfg { rx: 128, tx: 512, keepalive: 0, ..CaseCfg::default() };
+    let mut s = vec![connect_with(SpMode::Force(false), AckMode::Hold, vec![])];
+    for k in 0..r.range(1, 3) {
+        s.push(match r.below(4) {
+            0 => Step::Subscribe(SubSpec { filters: vec![FilterSpec { filter: "kept/#".into(), max_qos: 1, no_local: false, rap: false, rh: 0 }], props: vec![], cancel_at: None }),
+            1 => pubq(2, "kept", k as u32, 2),
+            _ => pubq(1, "kept", k as u32, 2),
+        });
+    }
+    // some QoS 2 exchanges get as far as PUBREL
+    if r.chance(1, 2) {
+        s.push(Step::Broker(BrokerAct::Release { n: 1, order: Order::Fifo }));
+        s.push(poll0());
+        s.push(poll0());
+    }
+    s.push(match r.below(3) {
+        0 => Step::ForgetConn,
+        _ => Step::DropConn,
+    });
+    let n = [254usize, 255, 256, 257, 511, 512, 513, 3][(index % 8) as usize];
+    for _ in 0..n {
+        s.push(Step::Connect(ConnectSpec { policy: IoPolicy::default(), faults: vec![], connack: ConnackSpec::Normal { sp: SpMode::Force(false), reason: *r.pick(&[0x88u8, 0x89, 0x97]), props: vec![] }, broker: BrokerPolicy::default(), cancel_at: None }));
+        s.push(Step::DropConn);
+    }
+    s.push(connect_with(SpMode::Force(true), AckMode::Hold, vec![]));
+    for _ in 0..4 {
+        s.push(poll0());
+    }
+    s.push(Step::Broker(BrokerAct::Release { n: 99, order: Order::Fifo }));
+    for _ in 0..8 {
+        s.push(poll0());
+    }
+    (cfg, s)
+}
+
+/// Shared (C04, C14): an inbound QoS 2 exchange is open (delivered, PUBREL withheld) when the
+/// connection is lost; the session resumes on a connection whose Maximum Packet Size is too
+/// small for a PUBREC, the broker's retransmission therefore ends that connection; the session
+/// resumes again without such a limit and the broker retransmits once more: acknowledged, not
+/// delivered a second time, and the PUBREL is answered with success.
+pub fn redelivery_under_a_tiny_limit_script(r: &mut Rng, _index: u64, _tier: Tier) -> (CaseCfg, Vec<Step>) {
+    use crate::refcodec::SPacket;
+    let cfg = CaseCfg { rx: 128, tx: 512, keepalive: 0, ..CaseCfg::default() };
+    let pid = *r.pick(&[1u16, 5, 255, 256, 65535]);
+    let publish = |dup: bool| Step::Broker(BrokerAct::Send(SPacket::Publish { dup, qos: 2, retain: false, topic: "twice".into(), pid: Some(pid), props: vec![], payload: vec![4, 2] }));
+    let mut s = vec![connect_with(SpMode::Force(false), AckMode::Immediate, vec![])];
+    // other exchanges may be open as well
+    let others = r.below(3) as u16;
+    for k in 0..others {
+        s.push(Step::Broker(BrokerAct::Send(SPacket::Publish { dup: false, qos: 2, retain: false, topic: "other".into(), pid: Some(pid.wrapping_add(10 + k).max(1)), props: vec![], payload: vec![k as u8] })));
+        s.push(poll0());
+        s.push(poll0());
+    }
+    s.push(publish(false));
+    s.push(poll0());
+    s.push(poll0());
+    s.push(Step::DropConn);
+    for _ in 0..r.range(1, 2) {
+        s.push(connect_with(SpMode::Force(true), AckMode::Immediate, vec![Prop::MaximumPacketSize(*r.pick(&[2u32, 3, 4]))]));
+        s.push(publish(true));
+        s.push(poll0());
+        s.push(poll0());
+        s.push(Step::DropConn);
+    }
+    s.push(connect_with(SpMode::Force(true), AckMode::Immediate, vec![]));
+    s.push(publish(true));
+    s.push(poll0());
+    s.push(poll0());
+    s.push(Step::Broker(BrokerAct::Send(SPacket::PubRel { pid, reason: None, props: None })));
     for _ in 0..3 {
         s.push(poll0());
     }
